@@ -112,70 +112,93 @@ example : ∃ e0 e r, eagerBaseD exBase = .ok e0 ∧ eagerD exStages e0 = .ok (s
 
 /-! ## sparse rows
 
-Proved for pipelines whose base row is a dict or a LazySparse without header map (`simpleBase`) and which contain
-no effective EncodeCatRows stage (`noEnccat`).  Not proved (model + correspondence check only): LazySparse rows
-with a header map / ArffReader's sparse rows as base (they additionally answer to their raw integer keys, see
-`sparse_get_counterexample`, so the two-sided by-key statement below is false for them), and EncodeCatRows on
-dicts (its result depends on the order of the dict, which `items()` of a lazy row does not fix).
+`baseS b` covers dicts, LazySparse rows with or without loader / encoders / header map (`_fwd`/`_inv`) / default
+"not sparse" entries, and the rows ArffReader builds.  A header-mapped LazySparse additionally answers to its raw
+integer keys (`r.leak`, see `sparse_get_counterexample`): by-key statements are about every other key, and
+`leakSafe` (a decidable condition on the stage list, `true` for every pipeline over a base without header map:
+`leakSafe_of_simple_base`) says that no HeadRows / row predicate addresses such a hidden key.
+Sets (`keys()`, iteration) are compared as sets; `items()` is the eager dict in the model's order (`Obs.agree`
+compares dicts as finite maps). -/
 
-Sets (`keys()`, iteration) are compared as sets and `items()` / `copy()` as finite maps (`Obs.agree`). -/
+/-- a dict or a LazySparse without header map has no hidden keys, so every pipeline over it is `leakSafe` -/
+theorem leakSafe_of_simple_base (b : SBase) (h : simpleBase b) (stages : List Stage) :
+    leakSafe (!(baseS b).leak.isEmpty) stages = true := leakSafe_of_simpleBase b h stages
 
-/- theorem sparse_get_full: for every base, `row[k]` is `e.d[k]` and raises KeyError exactly when `k ∉ e.d`.
-   False for header-mapped LazySparse bases (`sparse_get_counterexample`). -/
-
-theorem sparse_defined_partial (b : SBase) (hb : simpleBase b) (stages : List Stage) (hs : noEnccat stages) (e0 e : EagerS)
+theorem sparse_defined (b : SBase) (stages : List Stage) (hs : leakSafe (!(baseS b).leak.isEmpty) stages = true) (e0 e : EagerS)
     (he0 : eagerBaseS b = .ok e0) (he : eagerS stages e0 = .ok (some e)) :
     ∃ r, buildS stages (baseS b) = .ok (some r) ∧ RefS r e :=
-  let ⟨r, hr, href, _⟩ := (sparse_refines b hb stages hs e0 he0).1 e he; ⟨r, hr, href⟩
+  let ⟨r, hr, href, _⟩ := (sparse_refines b stages hs e0 he0).1 e he; ⟨r, hr, href⟩
 
-theorem sparse_row_dropped_partial (b : SBase) (hb : simpleBase b) (stages : List Stage) (hs : noEnccat stages) (e0 : EagerS)
+theorem sparse_row_dropped (b : SBase) (stages : List Stage) (hs : leakSafe (!(baseS b).leak.isEmpty) stages = true) (e0 : EagerS)
     (he0 : eagerBaseS b = .ok e0) (he : eagerS stages e0 = .ok none) :
-    buildS stages (baseS b) = .ok none := (sparse_refines b hb stages hs e0 he0).2 he
+    buildS stages (baseS b) = .ok none := (sparse_refines b stages hs e0 he0).2 he
 
-/-- by key (header name or raw key): `row[k]` is the eager dict's entry, KeyError exactly when it has none -/
-theorem sparse_get_partial (b : SBase) (hb : simpleBase b) (stages : List Stage) (hs : noEnccat stages) (e0 e : EagerS) (r : SRow)
+/-- by key (header name or raw key): `row[k]` is the eager dict's entry, KeyError exactly when it has none —
+for every key that is not a hidden raw key of a header-mapped base -/
+theorem sparse_get (b : SBase) (stages : List Stage) (hs : leakSafe (!(baseS b).leak.isEmpty) stages = true) (e0 e : EagerS) (r : SRow)
     (he0 : eagerBaseS b = .ok e0) (he : eagerS stages e0 = .ok (some e))
-    (hr : buildS stages (baseS b) = .ok (some r)) (k : Key) :
-    r.get k = optRes (dget e.d k) := (sparse_ref' b hb stages hs e0 e r he0 he hr).1.get k
+    (hr : buildS stages (baseS b) = .ok (some r)) (k : Key) (hk : k ∉ r.leak) :
+    r.get k = optRes (dget e.d k) := (sparse_ref' b stages hs e0 e r he0 he hr).1.get k hk
 
-/-- `items()` (and `copy()`): no key twice, and as a finite map it is the eager dict -/
-theorem items_eq_partial (b : SBase) (hb : simpleBase b) (stages : List Stage) (hs : noEnccat stages) (e0 e : EagerS) (r : SRow)
+/-- header names are never hidden keys -/
+theorem sparse_get_name (b : SBase) (stages : List Stage) (hs : leakSafe (!(baseS b).leak.isEmpty) stages = true) (e0 e : EagerS) (r : SRow)
+    (he0 : eagerBaseS b = .ok e0) (he : eagerS stages e0 = .ok (some e))
+    (hr : buildS stages (baseS b) = .ok (some r)) (s : String) :
+    r.get (.name s) = optRes (dget e.d (.name s)) :=
+  let h := (sparse_ref' b stages hs e0 e r he0 he hr).1; h.get _ (not_leak_of_name h rfl)
+
+/-- `items()` (and `copy()`) is the eager dict; no key twice -/
+theorem items_eq (b : SBase) (stages : List Stage) (hs : leakSafe (!(baseS b).leak.isEmpty) stages = true) (e0 e : EagerS) (r : SRow)
     (he0 : eagerBaseS b = .ok e0) (he : eagerS stages e0 = .ok (some e))
     (hr : buildS stages (baseS b) = .ok (some r)) :
-    ∃ its, r.items = .ok its ∧ (its.map (·.1)).Nodup ∧ ∀ k, dget its k = dget e.d k :=
-  (sparse_ref' b hb stages hs e0 e r he0 he hr).1.items
+    r.items = .ok e.d ∧ (e.d.map (·.1)).Nodup :=
+  let h := sparse_ref' b stages hs e0 e r he0 he hr; ⟨h.1.items, h.2.nodup⟩
 
 /-- `keys()` / iteration: exactly the keys of the eager dict, each once -/
-theorem sparse_keys_eq_partial (b : SBase) (hb : simpleBase b) (stages : List Stage) (hs : noEnccat stages) (e0 e : EagerS) (r : SRow)
+theorem sparse_keys_eq (b : SBase) (stages : List Stage) (hs : leakSafe (!(baseS b).leak.isEmpty) stages = true) (e0 e : EagerS) (r : SRow)
     (he0 : eagerBaseS b = .ok e0) (he : eagerS stages e0 = .ok (some e))
     (hr : buildS stages (baseS b) = .ok (some r)) :
     ∃ ks, r.keys = .ok ks ∧ ks.Nodup ∧ ∀ k, k ∈ ks ↔ (dget e.d k).isSome :=
-  (sparse_ref' b hb stages hs e0 e r he0 he hr).1.keys
+  (sparse_ref' b stages hs e0 e r he0 he hr).1.keys
 
-/-- by length -/
-theorem sparse_len_eq_partial (b : SBase) (hb : simpleBase b) (stages : List Stage) (hs : noEnccat stages) (e0 e : EagerS) (r : SRow)
+/-- by length (after the repair of `LazySparse.__len__` also for ArffReader's rows) -/
+theorem sparse_len_eq (b : SBase) (stages : List Stage) (hs : leakSafe (!(baseS b).leak.isEmpty) stages = true) (e0 e : EagerS) (r : SRow)
     (he0 : eagerBaseS b = .ok e0) (he : eagerS stages e0 = .ok (some e))
     (hr : buildS stages (baseS b) = .ok (some r)) :
-    r.len = .ok e.d.length := (sparse_ref' b hb stages hs e0 e r he0 he hr).1.len
+    r.len = .ok e.d.length := (sparse_ref' b stages hs e0 e r he0 he hr).1.len
 
 /-- every access other than feats/label/tipe for which the eager dict defines a result agrees with it
-(by key, keys, iteration, items, copy, len, `==` against a dict) -/
-theorem sparse_observations_partial (b : SBase) (hb : simpleBase b) (stages : List Stage) (hs : noEnccat stages) (e0 e : EagerS) (r : SRow)
+(by key — not a hidden raw key —, keys, iteration, items, copy, len, `==` against a dict) -/
+theorem sparse_observations (b : SBase) (stages : List Stage) (hs : leakSafe (!(baseS b).leak.isEmpty) stages = true) (e0 e : EagerS) (r : SRow)
     (he0 : eagerBaseS b = .ok e0) (he : eagerS stages e0 = .ok (some e))
     (hr : buildS stages (baseS b) = .ok (some r)) (a : Acc)
-    (hna : match a with | .label => False | .tipe => False | .feats _ => False | _ => True)
+    (hna : match a with | .label => False | .tipe => False | .feats _ => False | .name k => k ∉ r.leak | _ => True)
     (hdef : eagerObsS e a ≠ .undef) :
     (obsS r a).agree (eagerObsS e a) :=
-  let h := sparse_ref' b hb stages hs e0 e r he0 he hr; obsS_of_ref h.1 h.2 a hna hdef
+  let h := sparse_ref' b stages hs e0 e r he0 he hr; obsS_of_ref h.1 h.2 a hna hdef
 
-/-- feats / label / tipe when LabelRows is the last stage (an absent label entry is 0) -/
-theorem feats_label_sparse_partial (b : SBase) (hb : simpleBase b) (stages : List Stage) (hs : noEnccat stages)
-    (k : Key) (t : Option String) (e0 e : EagerS)
+/-- EncodeCatRows (onehot, onehot_tuple, string) on a lazy dense row is EncodeCatRows on the eager list -/
+theorem enccat_dense_eq_spec (m : CatMode) (r : DRow) (e : EagerD) (h : RefD r e) :
+    applyD (.enccat (some m)) r = .ok (some (if hasCat e.cells then .plain (catEncodeList m e.cells) else r)) ∧
+    eagerStageD (.enccat (some m)) e = .ok (some (if hasCat e.cells then ⟨catEncodeList m e.cells, none, none, none⟩ else e)) :=
+  enccatD_eq' m h
+
+/-- EncodeCatRows (onehot, onehot_tuple, string) on a lazy sparse row is EncodeCatRows on the eager dict, whose keys stay distinct -/
+theorem enccat_sparse_eq_spec (m : CatMode) (r : SRow) (e : EagerS) (h : RefS r e) (hw : WFS e) :
+    applyS (.enccat (some m)) r = .ok (some (if hasCatD e.d then .plain (catEncodeDict m e.d) else r)) ∧
+    eagerStageS (.enccat (some m)) e = .ok (some (if hasCatD e.d then ⟨catEncodeDict m e.d, none, none, []⟩ else e)) ∧
+    ((catEncodeDict m e.d).map (·.1)).Nodup :=
+  enccatS_eq' m h hw
+
+/-- feats / label / tipe when LabelRows is the last stage (an absent label entry is 0; an int label of a header-mapped
+table is the column with that raw key) -/
+theorem feats_label_sparse_partial (b : SBase) (stages : List Stage) (k : Key) (t : Option String)
+    (hs : leakSafe (!(baseS b).leak.isEmpty) (stages ++ [.label k t]) = true) (e0 e : EagerS)
     (he0 : eagerBaseS b = .ok e0) (he : eagerS (stages ++ [.label k t]) e0 = .ok (some e)) :
     ∃ r f ef v, buildS (stages ++ [.label k t]) (baseS b) = .ok (some r) ∧
       r.feats = .ok f ∧ e.feats = some ef ∧ RefS f ef ∧
       r.labelVal = .ok v ∧ e.labelVal = some v ∧ r.tipe = .ok t ∧ e.lab.map (·.2) = some t :=
-  feats_label_sparse' b hb stages hs k t e0 e he0 he
+  feats_label_sparse' b stages k t hs e0 e he0 he
 
 /-- "LabelRows last" is necessary for sparse rows too: `{0:1, 1:2}`, label key 1, then `EncodeRows({0:+1, 1:+1})`:
 the row reads `{0:2, 1:3}` but its label is still 2 (eager: 3)  (recorded C13-F9) -/
@@ -185,11 +208,12 @@ theorem feats_label_sparse_counterexample :
       r.items = .ok e.d ∧
       r.labelVal = .ok (.int 2) ∧ e.labelVal = some (.int 3) := feats_label_sparse_cex'
 
-/-- `simpleBase` is necessary for the two-sided by-key statement: `LazySparse({0:7}, fwd={'a':0}, inv={0:'a'})`
+/-- the condition `k ∉ r.leak` of `sparse_get` is necessary: `LazySparse({0:7}, fwd={'a':0}, inv={0:'a'})`
 answers `row['a'] == 7` like the eager dict `{'a':7}`, but also `row[0] == 7` where the eager dict raises KeyError -/
 theorem sparse_get_counterexample :
     ∃ e, eagerBaseS cexLeakBase = .ok e ∧ dget e.d (.pos 0) = none ∧ dget e.d (.name "a") = some (.int 7) ∧
-      (baseS cexLeakBase).get (.pos 0) = .ok (.int 7) ∧ (baseS cexLeakBase).get (.name "a") = .ok (.int 7) :=
+      (baseS cexLeakBase).get (.pos 0) = .ok (.int 7) ∧ (baseS cexLeakBase).get (.name "a") = .ok (.int 7) ∧
+      Key.pos 0 ∈ (baseS cexLeakBase).leak :=
   sparse_get_leak_cex'
 
 /-- access order (sparse): any history of accesses on one row object yields what fresh rows yield -/
@@ -197,9 +221,48 @@ theorem access_order_irrelevant_sparse (r : SRow) (as : List Acc) : runS r as = 
 
 /-- the sparse hypotheses are satisfiable: `LazySparse(loader of {'a':'1','b':'2'})`, `EncodeRows({'a':int,'c':str})`,
 drop `b`, label `y` (absent, so 0): the eager dict is `{'a':1,'c':'0','y':0}` -/
-example : simpleBase exBaseS ∧ noEnccat exStagesS ∧
+example : leakSafe (!(baseS exBaseS).leak.isEmpty) exStagesS = true ∧
     ∃ e0 e r, eagerBaseS exBaseS = .ok e0 ∧ eagerS exStagesS e0 = .ok (some e) ∧ buildS exStagesS (baseS exBaseS) = .ok (some r) ∧
       e.d = [(.name "a", .int 1), (.name "c", .str "0"), (.name "y", .int 0)] :=
-  ⟨rfl, trivial, _, _, _, rfl, rfl, rfl, rfl⟩
+  ⟨rfl, _, _, _, rfl, rfl, rfl, rfl⟩
+
+/-- … and over ArffReader's sparse rows: attributes `a numeric, b {p,q}`, line `{0 3}`, `EncodeCatRows('onehot_tuple')`,
+then label `b`: the eager dict is `{'a':3.0, 'b':(1,0,0)}` (the absent nominal column is its default level "0") -/
+example : leakSafe (!(baseS exArffS).leak.isEmpty) exArffStages = true ∧
+    ∃ e0 e r, eagerBaseS exArffS = .ok e0 ∧ eagerS exArffStages e0 = .ok (some e) ∧ buildS exArffStages (baseS exArffS) = .ok (some r) ∧
+      e.d = [(.name "a", .flt 3), (.name "b", .tup [1, 0, 0])] ∧ r.items = .ok e.d :=
+  ⟨rfl, _, _, _, rfl, rfl, rfl, rfl, rfl⟩
+
+/-! ## one set of filter objects, several tables -/
+
+/-- the `*Rows` filter objects carry no state from one `filter()` call to the next: in a session in which the same filter
+objects process the tables one after the other (in any order, dense and sparse mixed), every table yields exactly what it
+yields when processed alone by fresh filter objects; in particular table B after table A = table B alone.
+(The harness applies the real filter objects to 2–3 tables in a row and compares each with `session`'s output.) -/
+theorem filter_stateless (fs : List Stage) (ts : List Table) :
+    session fs ts = ts.map (fun t => (runTable fs t).1) := session_eq_map fs ts
+
+theorem filter_stateless_pair (fs : List Stage) (A B : Table) :
+    (session fs [A, B])[1]? = (session fs [B])[0]? := session_pair' fs A B
+
+/-! ## the first row of a table
+
+The `*Rows` filters derive their arguments from the first incoming row (`tableD1`, what the driver runs); the refinement
+theorems above are per row (`buildD`).  `uniformRun` (decidable, reported by the driver as part of `hyp`) says that at every
+stage every incoming row has the length, the header map and the categorical positions of the first one. -/
+
+/-- on a uniform table, looking at the first row (the code) is the same as looking at each row itself -/
+theorem first_row_irrelevant (stages : List Stage) (rows : List DBase)
+    (h : uniformRun stages (rows.map baseD) = true) :
+    tableD1 stages rows = runStages0 stages (rows.map baseD) := runStages1_eq stages (rows.map baseD) h
+
+/-- … and the stage-by-stage table is the table of the per-row pipelines: its rows are exactly the rows `buildD` builds
+(those not removed by a row predicate), so every per-row theorem above applies to every row of the table -/
+theorem table_rows_are_pipelines (stages : List Stage) (rows out : List DRow) (h : runStages0 stages rows = .ok out) :
+    ∃ os, mapMRes (buildD stages) rows = .ok os ∧ out = os.filterMap id := runStages0_rows stages rows out h
+
+/-- the single-stage form: for a row that looks like the first row, `filter()` builds the wrapper the per-row model builds -/
+theorem first_row_stage (st : Stage) (f r : DRow) (h : sameShape f r = true) : applyD1 st f r = applyD st r :=
+  applyD1_eq st f r h
 
 end Coba.C13
